@@ -112,9 +112,8 @@ EXTRA = {
              f"{side}-extreme-sub{sub}") for side in ("cli", "srv") for sub in (0, 1, 2)],
 }
 
-# families judged by the monitors only for the time being (projection = op lines): the server model does not yet
-# carry the timer clamp of fix 8f28306, so its observations differ on far-away deadlines
-MONITOR_ONLY = {("C16", "srv")}
+# families judged by the monitors only (projection = op lines); none at present
+MONITOR_ONLY = set()
 
 
 def families(prop, sides=("cli", "srv")):
